@@ -440,6 +440,11 @@ func runC11(cases string, res *Result) {
 					Detail: "engine settings that have nothing to do with include change what the template renders"})
 				return
 			}
+			if msg := evalAfterHistory(c, parseContext(c.str("ctx")), prep, out, class); msg != "" {
+				res.add(Finding{Kind: "oracle", Where: stream + "/history", Case: c, Expected: evalObserved(out, class), Observed: msg,
+					Detail: "what the engine did before changes what the including template renders"})
+				return
+			}
 			res.Hist["by-other-routes"]++
 			if msg := evalByOtherRoutes(c, parseContext(c.str("ctx")), prep, out, class); msg != "" {
 				res.add(Finding{Kind: "oracle", Where: stream + "/routes", Case: c, Expected: evalObserved(out, class), Observed: msg,
